@@ -48,6 +48,8 @@ type harness struct {
 	ghosts map[string]bool
 	// tables created by transactions that are still open or committed later than a given snapshot
 	flags map[string]bool
+	// probeSoon: a dropped constraint was just discarded; the next steps try to violate it
+	probeSoon int
 }
 
 func (h *harness) logf(format string, args ...any) {
@@ -299,6 +301,12 @@ func (h *harness) abort(s *session, why string) {
 	if s.st.hasWrites() {
 		h.flag("writes-discarded-by-" + why)
 	}
+	for _, op := range s.st.ddl {
+		if op.kind == "drop-constraint" {
+			h.flag("constraint-drop-discarded")
+			h.probeSoon = 2
+		}
+	}
 	s.st, s.tx = nil, nil
 }
 
@@ -417,6 +425,39 @@ func (h *harness) autocommit(s *session) {
 	h.audit("after autocommit", false)
 }
 
+// checkProbe: outside any transaction, a statement that violates a committed
+// CHECK constraint must fail, whatever open or rolled-back transactions did to
+// their own copy of the schema.
+func (h *harness) checkProbe(s *session, force bool) bool {
+	if !force && h.g.chance(2, "plainAutocommit") {
+		return false
+	}
+	f := h.g.checkViolation(newTxstate(h.committed, false))
+	if f == nil {
+		return false
+	}
+	ntx, ctxs, err := h.db.Eng.Exec(ctx, nil, f.sql, nil)
+	h.logf("s%d(auto): %s => %v", s.id, f.sql, err)
+	if err == nil || ntx != nil || len(ctxs) != 0 {
+		h.failf("s%d(auto): statement violates CHECK constraint and must fail: %s: err=%v committed=%d", s.id, f.sql, err, len(ctxs))
+	}
+	h.c.Label("auto-" + f.label)
+	if h.flags["constraint-drop-discarded"] {
+		h.c.Label("check-enforced-after-discarded-drop")
+	}
+	for _, o := range h.sess {
+		if o.st != nil {
+			for _, op := range o.st.ddl {
+				if op.kind == "drop-constraint" {
+					h.c.Label("check-enforced-while-other-session-dropped-it")
+				}
+			}
+		}
+	}
+	h.audit("after failed autocommit", false)
+	return true
+}
+
 // body draws the statements of a transaction block sent as one script.
 func (h *harness) script(s *session) {
 	st := newTxstate(h.committed, false)
@@ -493,8 +534,42 @@ func (h *harness) script(s *session) {
 }
 
 // step lets one session do one thing.
+// dropInFlight: another session has dropped a constraint and not committed, or a drop was just discarded.
+func (h *harness) dropInFlight(s *session) bool {
+	if h.probeSoon > 0 {
+		return true
+	}
+	for _, o := range h.sess {
+		if o != s && o.st != nil {
+			for _, op := range o.st.ddl {
+				if op.kind == "drop-constraint" {
+					return true
+				}
+			}
+		}
+	}
+	return false
+}
+
 func (h *harness) step() {
 	s := h.sess[h.g.intn(0, len(h.sess)-1, "session")]
+	if h.dropInFlight(s) && h.g.chance(2, "probeCheck") {
+		// the constraint must still hold for everybody else
+		if s.st == nil {
+			if h.checkProbe(s, true) {
+				if h.probeSoon > 0 {
+					h.probeSoon--
+				}
+				return
+			}
+		} else if !s.st.ro {
+			if f := h.g.checkViolation(s.st); f != nil {
+				h.c.Label("check-violation-in-tx-while-drop-in-flight")
+				h.execFailing(s, f)
+				return
+			}
+		}
+	}
 	if s.st == nil {
 		switch k := h.g.intn(0, 9, "idleAction"); {
 		case k < 5:
@@ -502,7 +577,9 @@ func (h *harness) step() {
 		case k < 7:
 			h.begin(s, true)
 		case k == 7:
-			h.autocommit(s)
+			if !h.checkProbe(s, false) {
+				h.autocommit(s)
+			}
 		case k == 8:
 			h.script(s)
 		default:
@@ -533,22 +610,22 @@ func (h *harness) step() {
 		return
 	}
 	switch k := h.g.intn(0, 19, "rwAction"); {
-	case k < 7:
+	case k < 6:
 		if d := h.g.dml(st); d != nil {
 			h.exec(s, d)
 		}
-	case k < 10:
+	case k < 9:
 		if q := h.g.query(st); q != nil {
 			h.inTxQuery(s, q)
 		}
-	case k < 14:
+	case k < 13:
 		if x := h.g.savepointStmt(st); x != nil {
 			h.exec(s, x)
 			if x.label == "rollback-to-after-write" {
 				h.flag("rolled-back-to-savepoint-after-write")
 			}
 		}
-	case k == 14:
+	case k == 13 || k == 14:
 		if x := h.g.ddl(st); x != nil {
 			h.exec(s, x)
 		}
@@ -604,7 +681,7 @@ func (h *harness) setup() {
 	nt := h.g.intn(1, 2, "nTables")
 	for i := 1; i <= nt; i++ {
 		d := h.g.genTable(fmt.Sprintf("t%d", i), true)
-		text := d.table().CreateSQL()
+		text := d.createSQL()
 		for _, ix := range d.idx {
 			text += "; " + ix.CreateSQL(d.name)
 		}
